@@ -66,10 +66,18 @@ def mc_module(name, base, fc, fe, with_seeks, defects=()):
     tf = fc["frames"]
     tu = tf * u
     bs = fc["block_size"]
-    seekt = sorted({0, 1, bs - 1, bs, bs + 1, tf - 1, tf, tf + 1}) if with_seeks else []
+    # targets: the ends, around the first block boundary, and on / around every defined seek point
+    starts = [0]
+    for x in blocks:
+        starts.append(starts[-1] + x)
+    pts = sorted({starts[f - 1] for f in SHAPES[fc["seek"]](n) if f != 0})
+    near = set()
+    for p_ in pts:
+        near |= {q for q in (p_ - 1, p_, p_ + 1) if 0 <= q <= tf + 1}
+    seekt = sorted({0, 1, bs - 1, bs, bs + 1, tf - 1, tf, tf + 1} | near) if with_seeks else []
     bseeks = []
     if with_seeks and fe.startswith("byte"):
-        bseeks = [("start", 0), ("start", u * bs + 1), ("start", tu - 1), ("start", tu), ("start", tu + 1),
+        bseeks = [("start", p_ * u) for p_ in pts if p_ > 0] + [("start", 0), ("start", u * bs + 1), ("start", tu - 1), ("start", tu), ("start", tu + 1),
                   ("current", 0), ("current", -3), ("current", 5), ("current", -(tu + 1)),
                   ("end", 0), ("end", -1), ("end", -(u * bs + 1)), ("end", -tu), ("end", -(tu + 1)), ("end", 1)]
     fe_model = "byte" if fe.startswith("byte") else fe
